@@ -125,4 +125,71 @@ def bounded_histories(reg, tier, seed):
             "bounded": True, "bounds": {"depth": depth, "maxlen": [1, 2, 3]}, "samples": samples, "failures": failures[:5]}
 
 
-BOUNDED = [bounded_histories]
+def bounded_live_object(reg, tier, seed):
+    """one long-lived tracker per history (as a circuit has): after every operation its answers are compared with those of a
+    tracker built afresh from the same state - an answer must not depend on what was asked before (stable AND current)"""
+    import collections
+    import random
+    from hippolyzer.lib.proxy.circuit import InjectionTracker
+    rng = random.Random(seed)
+    evals, failures, seen, samples = 0, [], set(), []
+
+    def clone(t):
+        c = InjectionTracker(t._packet_id_base, maxlen=t._maxlen)
+        c._injection_base = t._injection_base
+        c.injections = collections.deque(t.injections, maxlen=t._maxlen)
+        c.dropped = collections.deque(t.dropped, maxlen=t._maxlen)
+        return c
+    runs = 300 if tier == "quick" else 4000
+    for run in range(runs):
+        ml = rng.choice([1, 2, 2, 3, 4])
+        t = InjectionTracker(0, maxlen=ml)
+        nxt = 1
+        ops = []
+        for step in range(rng.randrange(3, 14)):
+            op = rng.choice("ssiiqqr")
+            evals += 1
+            try:
+                if op == "s":                       # the endpoint's next packet is forwarded
+                    t.track_seen(t.get_effective_id(nxt))
+                    ops.append(("send", nxt))
+                    nxt += 1
+                elif op == "i":
+                    ops.append(("inject", t.gen_injectable_id()))
+                elif op == "q":                     # a look-ahead question (e.g. a ping naming the next unused ID)
+                    a = rng.choice([nxt, nxt + 1, max(1, nxt - 1)])
+                    ops.append(("ask", a, t.get_effective_id(a)))
+                else:                               # an older packet is sent again
+                    a = rng.randrange(1, nxt + 1)
+                    ops.append(("again", a, t.get_effective_id(a)))
+                ref = clone(t)
+                for a in range(1, nxt + 3):
+                    got, want = t.get_effective_id(a), ref.get_effective_id(a)
+                    if got != want:
+                        raise AssertionError(f"get_effective_id({a}) answers {got}; a tracker in the same state that was never asked before answers {want}")
+                    if t.was_injected(got):
+                        raise AssertionError(f"get_effective_id({a}) = {got}, an ID used for an injected packet")
+            except AssertionError as ex:
+                if len(failures) < 4:
+                    failures.append({"key": "InjectionTracker.live-object/bounded", "clause": str(ex), "input": {"maxlen": ml, "ops": [str(o) for o in ops]},
+                                     "observed": str(ex)})
+                break
+        seen.add((ml, tuple(str(o) for o in ops)))
+        if len(samples) < 2:
+            samples.append({"maxlen": ml, "ops": [str(o) for o in ops[:8]]})
+    return {"name": "injection-tracker-live-object", "evaluations": evals, "distinct_nontrivial": len(seen),
+            "rule": f"{runs} seeded histories over {{send next, inject, look-ahead question, older ID again}} on ONE tracker object with window 1..4; after every "
+                    "operation every ID's translation is compared with a freshly built tracker in the same state; distinct = distinct histories",
+            "bounded": True, "bounds": {"runs": runs}, "samples": samples, "failures": failures}
+
+
+def bounded_circuit_ids(reg, tier, seed):
+    """the same tracker as the circuit drives it (contracts.c05_native): wire IDs are never shared between forwarded and injected packets"""
+    from contracts import c05_native
+    res = c05_native.bounded_circuit_histories(reg, tier, seed)
+    res["name"] = "proxied-circuit-histories (wire-ID monitors)"
+    res["failures"] = [f for f in res["failures"] if "wire ID" in f["clause"]]
+    return res
+
+
+BOUNDED = [bounded_histories, bounded_live_object, bounded_circuit_ids]
